@@ -295,7 +295,9 @@ def subst_oracle(back, h, w, A, size, b, ns, ans):
     x = payload
     if len(x) != ns:
         return "solution slice changed length"
-    if any(x[k] is None or x[k] != 0 for k in range(size, ns)):
+    # the harness hands over a slice pre-filled with NaN (a routine that leaves an entry unwritten, relying on
+    # a zeroed buffer, then shows): entries beyond `size` must still be NaN
+    if any(x[k] is not None for k in range(size, ns)):
         return "entries of the solution slice beyond `size` were modified"
     if any(A[i][j] is None for i in range(size) for j in range(size)) or any(v is None for v in b):
         return None
